@@ -6,7 +6,7 @@ import ast
 from typing import Dict, List, Optional, Set, Tuple
 
 from ..model import AnchorError, Program, dotted, kw, last_attr, norm, parent, walk_no_nested
-from ..report import Check
+from ..report import Check, guard
 from .common import calls_in, guards_of
 
 CANON = {"Type": "type", "Tuple": "tuple", "typing.Type": "type"}
@@ -191,7 +191,7 @@ def r13_4(prog: Program, chk: Check) -> None:
 
 
 def run(prog: Program, chk: Check) -> None:
-    r13_1(prog, chk)
-    r13_2(prog, chk)
-    r13_3(prog, chk)
-    r13_4(prog, chk)
+    guard(chk, r13_1, prog, chk)
+    guard(chk, r13_2, prog, chk)
+    guard(chk, r13_3, prog, chk)
+    guard(chk, r13_4, prog, chk)
